@@ -476,7 +476,13 @@ def r7(ctx, cfg):
             ok = eqs(rm[0][0]) == [True] and eqs(sv[0][0]) == [False] and is_param(ra[2], "delegator_addr") and is_param(sa[2], "delegator_addr") and is_param(sa[3], "withdraw_addr")
         ctx.ob(R, key, "stores(delegator -> withdraw address), removes when equal", ok, "set_withdraw_address does not save (delegator_addr -> withdraw_addr) / remove under equality",
                fn=f, sample="if d == w { remove(d) } else { save(d, w) }")
-        ok = all(_succ_dom(P, f, site[0], "cw_storage_plus::Map::save") or eqs(site[0]) == [True] for site, v in q.success_return_sites(P, f))
+        def is_the_save(v):
+            # the save's own verdict handed on (`WITHDRAW_ADDRESS.save(..).map_err(Into::into)`): Ok exactly when the save succeeded
+            v = peel(v)
+            while v[0] == "call" and v[1] in ("std::result::Result::map_err",) and v[2]:
+                v = peel(v[2][0])
+            return v[0] == "call" and v[1] == "cw_storage_plus::Map::save" and peel(v[2][0]) == WA
+        ok = all(_succ_dom(P, f, site[0], "cw_storage_plus::Map::save") or eqs(site[0]) == [True] or is_the_save(v) for site, v in q.success_return_sites(P, f))
         ctx.ob(R, key, "succeeds-only-after-storing", ok, "set_withdraw_address can succeed without having stored the address", fn=f, sample="Ok after save / remove")
     ek = "<staking::DistributionKeeper as module::Module>::execute"
     e = ctx.need_fn(R, ek)
